@@ -221,7 +221,12 @@ func (e *Env) Notifications() []Notification {
 // NewSupi returns a subscriber identity unique to this process and call.
 func (e *Env) NewSupi() string {
 	n := e.supiSeq.Add(1)
-	s := fmt.Sprintf("imsi-9%05d%06d", os.Getpid()%100000, n)
+	// every other identity starts with the digit 0 (an MCC such as 001): a SUPI is a digit string, not a number
+	lead := 9
+	if n%2 == 0 {
+		lead = 0
+	}
+	s := fmt.Sprintf("imsi-%d%05d%06d", lead, os.Getpid()%100000, n)
 	e.Track(s)
 	return s
 }
